@@ -68,7 +68,7 @@ theorem finish_bumpsOk {pl : Plug π β} {head : Nat} {st st' : St β} {c : Nat}
     simp only [Repo.addPlain]; split <;> exact ok
   | plainMatch =>
     exact ok.mono ⟨[_], rfl⟩ (fun b hb => hb) (fun b hb hn => absurd hb hn)
-  | skip bpar new pb =>
+  | skip bpar new pb pbs bumps =>
     simp only [St.skipBuild, Repo.addPlain]; split <;> exact ok
   | build bpar new pb pbs bumps bn na _ _ hpbs hmk =>
     refine ok.mono ⟨[_], rfl⟩ (fun b hb => by simp only [St.addBuild, Repo.addRC]; exact List.mem_append_left _ hb) ?_
@@ -136,7 +136,7 @@ theorem rgraph_bumpsOk (hT : h.Topo) {pl : Plug π β} {g : Graph β} (hg : rgra
               | irrelevant => exact fun x hx => hx
               | plain => simp only [Repo.addPlain]; split <;> exact fun x hx => hx
               | plainMatch => exact fun x hx => hx
-              | skip bpar new pb => simp only [St.skipBuild, Repo.addPlain]; split <;> exact fun x hx => hx
+              | skip bpar new pb pbs bumps => simp only [St.skipBuild, Repo.addPlain]; split <;> exact fun x hx => hx
               | build bpar new pb pbs bumps bn na =>
                 intro x hx; simp only [St.addBuild, Repo.addRC]; exact List.mem_append_left _ hx }
         exact (visit_ind hT H _ _ [] [] _ _ _ trivial trivial trivial hv).2.2 b' hb'
@@ -337,12 +337,13 @@ theorem concatM_mem {α} : ∀ {l : List (Except Err (List α))} {out : List α}
           · subst h4; cases h2; exact Or.inl h3
           · exact Or.inr ⟨e', h4, xs, h2, h3⟩
 
-/-- what one parent build registers in the builds of one component -/
+/-- what one parent build registers in the builds of one component: the component builds that the version pinned
+by the build contains (`to_rbuild`) and none of the versions of the parent builds does (`from_rbuilds`) -/
 theorem regsOfBuild_mem {repo : Nat} {branch : List Char} {comp : Nat} {g : Graph Bumps} {b : RB Bumps}
     {l : List Reg} (hl : regsOfBuild repo branch comp g b = .ok l) (x : Nat) :
     (⟨comp, x, repo, branch, b.bn⟩ : Reg) ∈ l ↔
       b.bn ≠ fakeNM ∧ ∃ bump t, b.bumps.lookup comp = some bump ∧ bump.toRb = some t ∧
-        RbAvoid g bump.fromRbs x t := by
+        RbAnc g x t ∧ ∀ f ∈ bump.fromRbs, ¬ RbAnc g x f := by
   unfold regsOfBuild at hl
   split at hl
   · rename_i hnm
@@ -364,16 +365,20 @@ theorem regsOfBuild_mem {repo : Nat} {branch : List Char} {comp : Nat} {g : Grap
           cases hxs
           simp [hnm, hlk, ht]
         · rename_i t ht
-          have hmem := inBump_mem hxs x
-          simp only [List.mem_map, Reg.mk.injEq, true_and, and_true, exists_eq_right]
-          rw [hmem]
-          constructor
-          · intro hav
-            exact ⟨hnm, bump, t, hlk, ht, hav⟩
-          · rintro ⟨_, bump', t', hlk', ht', hav⟩
-            rw [hlk] at hlk'; cases hlk'
-            rw [ht] at ht'; cases ht'
-            exact hav
+          split at hxs
+          · cases hxs
+          · rename_i known hknown
+            have hmem := inBump_mem hxs x
+            have hk := known_mem hknown
+            simp only [List.mem_map, Reg.mk.injEq, true_and, and_true, exists_eq_right]
+            rw [hmem, rbAvoid_known hk x t]
+            constructor
+            · intro hav
+              exact ⟨hnm, bump, t, hlk, ht, hav⟩
+            · rintro ⟨_, bump', t', hlk', ht', hav⟩
+              rw [hlk] at hlk'; cases hlk'
+              rw [ht] at ht'; cases ht'
+              exact hav
 
 theorem mem_registrations {repo : Nat} {comps : List (Nat × Graph Bumps)} {g : Graph Bumps} {regs : List Reg}
     (hr : registrations repo comps g = .ok regs) (r : Reg) :
